@@ -395,6 +395,48 @@ def _bracket_invariant(ctx, rep, fn, fp, lp):
         return
     (fa_n, a_n), (fb_n, b_n) = pre
     ft_n, xt_n = body[start].targets[0].id, body[start].value.args[0].id
+    # the names the loop updates: the pre-loop names themselves, or plain copies of them made before the loop (`hist_fa = fmax`)
+    stored_in_loop = {x.id for x in ast.walk(lp) if isinstance(x, ast.Name) and isinstance(x.ctx, ast.Store)}
+    pre_copies = {}
+    for s_ in fn.body():
+        if s_.lineno >= lp.lineno:
+            break
+        if isinstance(s_, ast.Assign) and len(s_.targets) == 1 and isinstance(s_.targets[0], ast.Name) and isinstance(s_.value, ast.Name):
+            pre_copies.setdefault(s_.value.id, []).append(s_.targets[0].id)
+
+    def takes_new(nm):
+        # the newest estimate: assigned from the new point / its function value inside the loop (possibly through one temporary)
+        for x in ast.walk(lp):
+            if isinstance(x, ast.Assign) and len(x.targets) == 1 and isinstance(x.targets[0], ast.Name) and x.targets[0].id == nm and isinstance(x.value, ast.Name):
+                v_ = x.value.id
+                if v_ in (xt_n, ft_n):
+                    return True
+                for y in ast.walk(lp):
+                    if isinstance(y, ast.Assign) and len(y.targets) == 1 and isinstance(y.targets[0], ast.Name) and y.targets[0].id == v_ \
+                            and ((isinstance(y.value, ast.Name) and y.value.id in (xt_n, ft_n)) or
+                                 (isinstance(y.value, ast.Call) and isinstance(y.value.func, ast.Name) and y.value.func.id == fp)):
+                        return True
+        return False
+
+    def live(nm, taken):
+        if nm in stored_in_loop:
+            return nm
+        cands = [c_ for c_ in pre_copies.get(nm, []) if c_ in stored_in_loop and c_ not in taken]
+        if len(cands) > 1:
+            newest = [c_ for c_ in cands if takes_new(c_)]
+            cands = newest if len(newest) == 1 else []
+        return cands[0] if cands else None
+    taken = set()
+    resolved = []
+    for nm in (fa_n, a_n, fb_n, b_n):
+        r_ = live(nm, taken)
+        resolved.append(r_)
+        if r_:
+            taken.add(r_)
+    if any(r_ is None for r_ in resolved):
+        rep.undecided(rule, fn, body[start], 'the loop does not update the bracket ends and their function values under names that were recognised', construct=cons)
+        return
+    fa_n, a_n, fb_n, b_n = resolved
     tracked = {fa_n, a_n, fb_n, b_n}
     TOPV = ('top',)
 
@@ -704,12 +746,18 @@ def chandrupatla(ctx, rep):
     else:
         nf = NF(prog, fn)
         nf.env = {}
+        # plain copies made in the loop body before the branch (`a = hist_a`) name the same value on both sides
+        copies = {}
+        for y in lp.body:
+            if isinstance(y, ast.Assign) and len(y.targets) == 1 and isinstance(y.targets[0], ast.Name) and isinstance(y.value, ast.Name):
+                copies[y.targets[0].id] = ('name', copies.get(y.value.id, ('name', y.value.id))[1])
+        nf.env.update(copies)
         for y in scalar_t[1]:
             if isinstance(y, ast.Assign) and isinstance(y.targets[0], ast.Name):
                 nf.env[y.targets[0].id] = nf.nf(y.value)
         a = nf.env.get(T)
         nf2 = NF(prog, fn)
-        nf2.env = {}
+        nf2.env = dict(copies)
         mask = vector_t[0].targets[0].slice
         for y in vector_t[1]:
             pairs = []
@@ -719,12 +767,12 @@ def chandrupatla(ctx, rep):
                 pairs = [(y.targets[0], y.value)]
             for te, ve in pairs:
                 if isinstance(te, ast.Name) and isinstance(ve, ast.Subscript) and isinstance(ve.value, ast.Name) and ast.dump(ve.slice) == ast.dump(mask):
-                    nf2.env[te.id] = ('name', ve.value.id)
+                    nf2.env[te.id] = copies.get(ve.value.id, ('name', ve.value.id))
         b = nf2.nf(vector_t[0].value)
-        from ..exprnf import nf_refute_equal
+        from ..exprnf import nf_names, nf_refute_equal
         if a is not None and a == b:
             rep.ok('D4.scalar', fn, vector_t[0], 'same AC normal form modulo the lane mask', construct='interpolation formula')
-        elif a is not None and b is not None and nf_refute_equal(a, b):
+        elif a is not None and b is not None and nf_names(a) == nf_names(b) and nf_refute_equal(a, b):
             rep.bad('D4.scalar', fn, vector_t[0], 'the scalar branch and the vector branch compute different interpolation formulas (their values are disjoint on a common '
                     'box of the six history values): scalar input does not behave like a one-element vector', construct='interpolation formula')
         else:
